@@ -1019,7 +1019,7 @@ pub fn run(ctx: &Ctx) -> Report {
     });
 
     let mut rep = Report::new(stats,
-        "meshes on dyadic non-uniform grids (positions k/2^s, s<=9, steps from 4 classes incl. ratios up to 256:1, offsets in [-1024,1024]/2^s), 2..12 nodes per direction, 1..4 variables, integer nodal data (4 magnitude classes up to 2^30). \
+        "meshes on dyadic non-uniform grids (positions k/2^s, s<=9, steps from 4 classes incl. ratios up to 256:1, offsets in [-1024,1024]/2^s), 2..12 nodes per direction (one draw in eight long: 13..48 nodes in 1-D, 13..24 per axis in 2-D f64), 1..4 variables, integer nodal data (4 magnitude classes up to 2^30). \
          Enumerated (seed-independent) units: EVERY 1-D shape (n,nvars) and EVERY 2-D shape (nx,ny,nvars): every (node,var) written with a unique code through every write path and read back through every read path, for T in {f64,Rat} (1-D also X in {f64,Rat}); f64: interpolation at all nodes and mid-cells, trapezium/square_trapezium, one file round trip per 1-D shape. \
          Random units: 10 meshes each with a random write history (set_nodes_vars / IndexMut vector / IndexMut component / apply bilinear+nonlinear / assign / linear fill), ALL read paths compared with the model after every step; then the numerical routines on the final state (interpolation at nodes, mid-cells, random interior points, points 1.001e-6..1e-5 from a node; quadrature vs exact Rat cell sum, cross-checked with the analytic integral when the data are (bi)linear; file round trip at precision 0..17 into a mesh with different node count and garbage contents). \
          A mesh is non-trivial when every direction has >=3 nodes with >=2 distinct spacings and the final nodal data are not constant; distinct = hash(kind, types, grids, final data, #ops)");
